@@ -102,9 +102,11 @@ LEAVES = {
 
 
 class WorldGen:
-    def __init__(self, ts, rng, objects=None, p_null=0.2, p_err=0.0, p_nonfinite=0.0, max_list=3):
+    def __init__(self, ts, rng, objects=None, p_null=0.2, p_err=0.0, p_nonfinite=0.0, max_list=3, p_invalid=0.0, p_nothing=0.0):
         self.ts, self.r = ts, rng
         self.p_null, self.p_err, self.p_nonfinite, self.max_list = p_null, p_err, p_nonfinite, max_list
+        self.p_invalid, self.p_nothing = p_invalid, p_nothing
+        self.dyn_lists = False
         # object ids per object type
         self.objects = objects or {"root": ts["query"], "a1": "A", "a2": "A", "b1": "B"}
         if ts.get("mutation"):
@@ -129,13 +131,30 @@ class WorldGen:
         if ty["k"] == "nn":
             return self.inner(ty["of"])
         if ty["k"] == "list":
-            return {"k": "list", "items": [self.value(ty["of"]) for _ in range(r.randint(0, self.max_list))]}
+            of = ty["of"]
+            if self.dyn_lists and of["k"] != "nn" and named(of) not in LEAVES:
+                # the dynamic API cannot express a null item of object/abstract/enum/custom-scalar type
+                # (FieldValue::NULL is also the placeholder parent of objects): generate non-null items
+                return {"k": "list", "items": [self.inner(of) for _ in range(r.randint(0, self.max_list))]}
+            return {"k": "list", "items": [self.value(of) for _ in range(r.randint(0, self.max_list))]}
         n = ty["n"]
         k = kind(self.ts, n)
         if k in ("OBJECT", "INTERFACE", "UNION"):
             ids = self.ids_of(n)
             i = r.choice(ids)
             return {"k": "ref", "id": i, "ty": self.objects[i]}
+        if self.p_nothing and r.random() < self.p_nothing:
+            return {"k": "nothing"}
+        if self.p_invalid and r.random() < self.p_invalid:
+            # a value of the wrong kind for the declared leaf type (dynamic schemas only)
+            if k == "ENUM":
+                return {"k": "enum", "v": "PURPLE"}
+            if n in ("Int", "Float", "Boolean"):
+                return {"k": "str", "v": "wrong"}
+            if n == "String":
+                return {"k": "int", "v": "5"}
+            if n not in LEAVES:
+                return {"k": "int", "v": "5"}
         if k == "ENUM":
             return {"k": "enum", "v": r.choice(self.ts["types"][n]["values"])}
         if n == "Float" and self.p_nonfinite and r.random() < self.p_nonfinite:
@@ -298,3 +317,70 @@ def conflicting_keys(ts, doc):
     if any(check(op["sels"]) for op in doc["ops"]):
         return True
     return False
+
+
+def random_ts(rng, n_obj=4):
+    """Seeded random small type system for dynamic schemas: objects, interfaces (incl. interface
+    inheritance), unions, an enum, a custom scalar.  Always valid (interface fields are copied into
+    implementors with identical types)."""
+    def nm(n): return {"k": "named", "n": n}
+    def wrap(t):
+        x = rng.random()
+        if x < 0.45: return t
+        if x < 0.6: return {"k": "nn", "of": t}
+        if x < 0.75: return {"k": "list", "of": t}
+        if x < 0.85: return {"k": "list", "of": {"k": "nn", "of": t}}
+        if x < 0.93: return {"k": "nn", "of": {"k": "list", "of": {"k": "nn", "of": t}}}
+        return {"k": "nn", "of": {"k": "list", "of": t}}
+    def F(ty): return {"ty": ty, "outer": False, "guard": False, "gen": True}
+    types = {}
+    types["Color"] = {"kind": "ENUM", "fields": {}, "implements": [], "members": [], "values": ["RED", "GREEN", "BLUE"][:rng.randint(2, 3)]}
+    types["Stamp"] = {"kind": "SCALAR", "fields": {}, "implements": [], "members": [], "values": []}
+    objs = ["O%d" % i for i in range(1, n_obj + 1)]
+    ifaces = ["I1"] + (["I2"] if rng.random() < 0.6 else [])
+    unions = ["U1"] + (["U2"] if rng.random() < 0.4 else [])
+    leafs = ["Int", "Float", "String", "Boolean", "ID", "Color", "Stamp"]
+    comps = objs + ifaces + unions
+    def rand_fields(k):
+        fs = {}
+        for j in range(k):
+            t = rng.choice(leafs) if rng.random() < 0.55 else rng.choice(comps)
+            fs["f%d" % (j + 1)] = F(wrap(nm(t)))
+        return fs
+    i1 = {"id": F({"k": "nn", "of": nm("ID")})}
+    i1.update({("i1" + k): v for k, v in rand_fields(rng.randint(1, 2)).items()})
+    types["I1"] = {"kind": "INTERFACE", "fields": i1, "implements": [], "members": [], "values": []}
+    if "I2" in ifaces:
+        i2 = dict(i1)
+        i2.update({("i2" + k): v for k, v in rand_fields(1).items()})
+        types["I2"] = {"kind": "INTERFACE", "fields": i2, "implements": ["I1"], "members": [], "values": []}
+    for o in objs:
+        fields = {"id": F({"k": "nn", "of": nm("ID")})}
+        impl = []
+        x = rng.random()
+        if "I2" in ifaces and x < 0.3:
+            impl = ["I2", "I1"]
+        elif x < 0.7:
+            impl = ["I1"]
+        for i in impl:
+            fields.update(json.loads(json.dumps(types[i]["fields"])))
+        fields.update(rand_fields(rng.randint(1, 3)))
+        types[o] = {"kind": "OBJECT", "fields": fields, "implements": impl, "members": [], "values": []}
+    if not any("I1" in types[o]["implements"] for o in objs):
+        types[objs[0]]["implements"] = ["I1"]
+        types[objs[0]]["fields"].update(json.loads(json.dumps(i1)))
+    if "I2" in ifaces and not any("I2" in types[o]["implements"] for o in objs):
+        types[objs[-1]]["implements"] = ["I2", "I1"]
+        types[objs[-1]]["fields"].update(json.loads(json.dumps(types["I2"]["fields"])))
+    for u in unions:
+        types[u] = {"kind": "UNION", "fields": {}, "implements": [], "members": sorted(rng.sample(objs, rng.randint(1, min(3, len(objs))))), "values": []}
+    q = {}
+    for j, t in enumerate(rng.sample(comps, min(len(comps), rng.randint(3, 5)))):
+        q["q%d" % (j + 1)] = F(wrap(nm(t)))
+    q["n"] = F(nm("Int"))
+    types["Query"] = {"kind": "OBJECT", "fields": q, "implements": [], "members": [], "values": []}
+    objects = {"root": "Query"}
+    for o in objs:
+        objects[o.lower() + "a"] = o
+        objects[o.lower() + "b"] = o
+    return {"types": types, "query": "Query", "mutation": "", "subscription": ""}, objects
